@@ -17,12 +17,6 @@ set_option linter.unusedSimpArgs false
 -/
 namespace Dig.C20
 
-def exitKind (ctx : Ctx) (fn : Fn) (b : Beh) : ExitKind :=
-  match b.k with
-  | .panic => .panic
-  | .err => if (errOuts ctx.env fn).isEmpty then .ok else .err
-  | .ok => .ok
-
 def ctorCbErr (ctx : Ctx) (f x : Nat) : ExitKind → Option DErr
   | .ok => none
   | .err => some (.ctorFailed (.user f x))
@@ -32,34 +26,6 @@ def decoCbErr (ctx : Ctx) (f x : Nat) : ExitKind → Option DErr
   | .ok => none
   | .err => some (.user f x)
   | .panic => if ctx.cfg.recover then some (.panicErr f x) else none
-
-private theorem bump_log (st : St) (f : Nat) : (st.bumpExec f).log = st.log := (bumpExec_fields st f).2.2.2.2.1
-private theorem bump_clock (st : St) (f : Nat) : (st.bumpExec f).clock = st.clock := (bumpExec_fields st f).2.2.2.2.2
-
-/-- the state after the body of execution `x` of `fn` has run -/
-def afterBody (ctx : Ctx) (who : Who) (fn : Fn) (args : List Val) (st : St) : St :=
-  let x := st.execCount fn.id
-  let b := ctx.beh fn.id x
-  { (st.bumpExec fn.id) with
-    clock := st.clock + b.dt
-    log := st.log ++ [.enter who fn.id x args, .exit who fn.id x (exitKind ctx fn b)] }
-
-def bodyRes (ctx : Ctx) (fn : Fn) (st : St) : BodyRes :=
-  let x := st.execCount fn.id
-  let b := ctx.beh fn.id x
-  let eo := errOuts ctx.env fn
-  match b.k with
-  | .panic => .panic x
-  | .err => if eo.isEmpty then .ok x b.len else .err x (eo.getD (b.eslot % eo.length) 0)
-  | .ok => .ok x b.len
-
-private theorem callBody_spec (ctx : Ctx) (hnd : ctx.cfg.dry = false) (who : Who) (fn : Fn) (args : List Val) (st : St) :
-    callBody ctx who fn args st = (bodyRes ctx fn st, afterBody ctx who fn args st) := by
-  simp only [callBody, hnd, bodyRes, afterBody, exitKind, St.emit, bump_log, bump_clock]
-  cases (ctx.beh fn.id (st.execCount fn.id)).k
-  · simp
-  · by_cases h : (errOuts ctx.env fn).isEmpty <;> simp [h]
-  · simp
 
 theorem C20_ctor (ctx : Ctx) (hnd : ctx.cfg.dry = false) (n : Nat) (node : CtorNode) (args : List Val) (st : St) :
     let f := node.fn.id
@@ -74,11 +40,11 @@ theorem C20_ctor (ctx : Ctx) (hnd : ctx.cfg.dry = false) (n : Nat) (node : CtorN
   simp only [ctorTail, callBody_spec ctx hnd, bodyRes]
   cases hk : (ctx.beh node.fn.id (st.execCount node.fn.id)).k
   · cases hcb : node.cb <;>
-      simp [afterBody, exitKind, hk, runCallback, St.emit, St.modScope, St.modCtor, ctorCbErr, hcb]
+      simp [afterBody, bodyEvents, exitKind, hk, runCallback, ctorCommit, ctorOutcome, St.emit, St.modScope, St.modCtor, ctorCbErr, hcb]
   · by_cases he : (errOuts ctx.env node.fn).isEmpty = true <;> cases hcb : node.cb <;>
-      simp [afterBody, exitKind, hk, he, runCallback, St.emit, St.modScope, St.modCtor, ctorCbErr, hcb]
+      simp [afterBody, bodyEvents, exitKind, hk, he, runCallback, ctorCommit, ctorOutcome, St.emit, St.modScope, St.modCtor, ctorCbErr, hcb]
   · by_cases hr : ctx.cfg.recover = true <;> cases hcb : node.cb <;>
-      simp [afterBody, exitKind, hk, hr, runCallback, St.emit, St.modScope, St.modCtor, ctorCbErr, hcb]
+      simp [afterBody, bodyEvents, exitKind, hk, hr, runCallback, ctorCommit, ctorOutcome, St.emit, St.modScope, St.modCtor, ctorCbErr, hcb]
 
 theorem C20_deco (ctx : Ctx) (hnd : ctx.cfg.dry = false) (d : Nat) (node : DecoNode) (args : List Val) (st : St) :
     let f := node.fn.id
@@ -93,11 +59,11 @@ theorem C20_deco (ctx : Ctx) (hnd : ctx.cfg.dry = false) (d : Nat) (node : DecoN
   simp only [decoTail, callBody_spec ctx hnd, bodyRes]
   cases hk : (ctx.beh node.fn.id (st.execCount node.fn.id)).k
   · cases hcb : node.cb <;>
-      simp [afterBody, exitKind, hk, runCallback, St.emit, St.modScope, St.modDeco, decoCbErr, hcb]
+      simp [afterBody, bodyEvents, exitKind, hk, runCallback, decoCommit, decoOutcome, St.emit, St.modScope, St.modDeco, decoCbErr, hcb]
   · by_cases he : (errOuts ctx.env node.fn).isEmpty = true <;> cases hcb : node.cb <;>
-      simp [afterBody, exitKind, hk, he, runCallback, St.emit, St.modScope, St.modDeco, decoCbErr, hcb]
+      simp [afterBody, bodyEvents, exitKind, hk, he, runCallback, decoCommit, decoOutcome, St.emit, St.modScope, St.modDeco, decoCbErr, hcb]
   · by_cases hr : ctx.cfg.recover = true <;> cases hcb : node.cb <;>
-      simp [afterBody, exitKind, hk, hr, runCallback, St.emit, St.modScope, St.modDeco, decoCbErr, hcb]
+      simp [afterBody, bodyEvents, exitKind, hk, hr, runCallback, decoCommit, decoOutcome, St.emit, St.modScope, St.modDeco, decoCbErr, hcb]
 
 /-- a callback's error has the function's own error as root cause -/
 theorem C20_error_root (ctx : Ctx) (f x : Nat) :
